@@ -912,23 +912,27 @@ class DATETIME(NUMERIC):
 
         try:
             # A fully specified date string comes back as a plain datetime
+            # (An exclusive bound excludes the whole period the date string
+            # stands for: the range starts after its last instant / ends
+            # before its first one)
             if start is not None:
                 startdt = self._parse_datestring(start)
                 if hasattr(startdt, "floor"):
-                    startdt = startdt.floor()
+                    startdt = startdt.ceil() if startexcl else startdt.floor()
                 start = datetime_to_long(startdt)
 
             if end is not None:
                 enddt = self._parse_datestring(end)
                 if hasattr(enddt, "ceil"):
-                    enddt = enddt.ceil()
+                    enddt = enddt.floor() if endexcl else enddt.ceil()
                 end = datetime_to_long(enddt)
         except (ValueError, OverflowError):
             e = sys.exc_info()[1]
             raise QueryParserError("Range %r to %r is not a valid date range"
                                    " (%s)" % (start, end, e))
 
-        return query.NumericRange(fieldname, start, end, boost=boost)
+        return query.NumericRange(fieldname, start, end, startexcl, endexcl,
+                                  boost=boost)
 
 
 class BOOLEAN(FieldType):
